@@ -153,6 +153,7 @@ class Ctx:
         if workers <= 1 or len(args) == 1:
             results = [_guard(fn, a) for a in args]
         else:
+            _preload()
             mpctx = multiprocessing.get_context("fork")
             with mpctx.Pool(min(workers, len(args))) as pool:
                 results = pool.starmap(_guard, [(fn, a) for a in args], chunksize=1)
@@ -162,6 +163,28 @@ class Ctx:
             st, fails = res[1]
             self.stats.merge(st)
             self.failures.extend(fails)
+
+
+_PRELOADED = False
+
+
+def _preload():
+    """Warm up Hypothesis in the parent and freeze the heap: a forked worker otherwise runs Hypothesis' first
+    gc.collect() over the whole preloaded heap and copies it (seconds of user+system time per worker)."""
+    global _PRELOADED
+    if _PRELOADED:
+        return
+    _PRELOADED = True
+    try:
+        import gc
+
+        from hypothesis import strategies as st
+
+        hyp_search(st.integers(0, 3), lambda c: None, 3, 0, Stats(), shrink=False)
+        gc.collect()
+        gc.freeze()
+    except Exception:
+        pass
 
 
 def _guard(fn, a):
